@@ -91,6 +91,14 @@ def run_c20(tape, r, tier, sandbox):
             r.probes['robots_big'] += 1
         robots[o.key()] = {'mode': mode, 'text': text, 'k': tape.between(1, 2, 'rb.5xx.k'), 'exchanges': [], 'fetches': 0}
         r.probes.update({'robots_404': int(mode == '404'), 'robots_5xx': int(mode.startswith('5xx')), 'robots_redirect': int(mode == 'redirect')})
+    # the main origin's robots.txt may live on another origin (redirect across origins): the rules are the main origin's, the
+    # serving origin keeps its own robots.txt
+    foreign_home = None
+    others = [o for o in site.origins if o.key() != main.key()]
+    if others and robots[main.key()]['mode'] == 'redirect' and tape.chance(1, 2, 'rb.redirect.foreign'):
+        foreign_home = others[tape.draw(len(others), 'rb.redirect.foreign.o')]
+        robots[main.key()]['foreign_home'] = foreign_home.key()
+        r.probes['robots_redirect_to_other_origin'] += 1
     concurrency = tape.choice((1, 2, 3, 4), 'concurrency')
     if concurrency > 1:
         r.probes['concurrency>1'] += 1
@@ -143,7 +151,8 @@ def run_c20(tape, r, tier, sandbox):
                 elif mode == 'redirect':
                     body = b'moved' if st['k'] == 1 else (b'<html><head><title>301 Moved</title></head><body>The document has moved '
                                                           b'<a href="/robots2.txt">here</a>.' + b' padding' * 60 + b'</body></html>')
-                    server.send(conn, 301, 'Moved', [('Location', '/robots2.txt'), ('Content-Type', 'text/html')], body)
+                    loc = '/robots2.txt' if foreign_home is None or o != main.key() else foreign_home.prefix + '/robots-of-site.txt'
+                    server.send(conn, 301, 'Moved', [('Location', loc), ('Content-Type', 'text/html')], body)
                     ex['status'] = 301
                 else:
                     server.send(conn, 200, 'OK', [('Content-Type', 'text/plain')], st['text'].encode('utf-8'))
@@ -155,6 +164,16 @@ def run_c20(tape, r, tier, sandbox):
         for o in site.origins:
             server.behaviour[(o.key(), '/robots.txt')] = robots_beh
             server.behaviour[(o.key(), '/robots2.txt')] = robots_beh
+        if foreign_home is not None:
+            def elsewhere(conn, entry, res):
+                # the main origin's rules, served by the other origin
+                st = robots[main.key()]
+                entry['robots'] = True
+                ex = {'t': entry['t'], 'target': entry['target'], 'status': 200}
+                st['exchanges'].append(ex)
+                server.send(conn, 200, 'OK', [('Content-Type', 'text/plain')], st['text'].encode('utf-8'))
+                ex['done_at'] = max(conn._cursor, h.loop.time())
+            server.behaviour[(foreign_home.key(), '/robots-of-site.txt')] = elsewhere
     out = crawl.run_app(tape, r, site, argv, concurrency, sandbox, setup=setup)
     rows = crawl.read_rows(dbpath)
     server = out['server']
